@@ -97,6 +97,7 @@ BEGIN {
 		}
 	}
 }
+$1 == "a" || $1 == "s", $1 == "never" { inr++; if (mode == "probe") printf "R range [%s]\n", $0 }
 mode == "plain" { fc = sprintf("%c%c", "\303\251x", 233); dr = ($0 ~ ("^" "a")) + ($0 ~ ("^h." "$")); if (NR == 2) sr = srand(5); cnt++; last = $0; arr[NR] = $1; if (match($0, /[b-d2-3]+/)) rs = RSTART; r = rand(); $2 = "X"; nf = NF; len = length("h\303\251") }
 mode == "csv" || mode == "setmodes" { v = @"b"; fld = FIELDS[1]; cnt++; print v, fld }
 mode == "exitrule" && NR == 2 { exit 3 }
@@ -660,7 +661,7 @@ func init() {
 	core.Register(&core.Check{
 		ID:    "C14",
 		Level: "model_checking",
-		Rule: "explicit-state search over the real Interpreter: state = history of operations on one interp.Interpreter, operation = Execute/ExecuteContext with one of ~33 configurations of one program (plain, FS/RS/ORS/SUBSEP via Vars, CSV/TSV header by Config/Vars/BEGIN, Args, error in function/loop/for-in/rule, exit 3 in BEGIN/rule/END, context cancelled at VM step k, file and command streams left open, completed run whose context is cancelled afterwards, sandbox flags, Chars, CRLF, rejected configurations) or ResetVars/ResetRand; " +
+		Rule: "explicit-state search over the real Interpreter: state = history of operations on one interp.Interpreter, operation = Execute/ExecuteContext with one of ~33 configurations of one program (plain, FS/RS/ORS/SUBSEP via Vars, CSV/TSV header by Config/Vars/BEGIN, Args, error in function/loop/for-in/rule, exit 3 in BEGIN/rule/END and error in a rule while a range pattern is open, context cancelled at VM step k, file and command streams left open, completed run whose context is cancelled afterwards, sandbox flags, Chars, CRLF, rejected configurations) or ResetVars/ResetRand; " +
 			"successor = replay of the history on a fresh Interpreter + one more operation (transitions); states de-duplicated by VerifDump() (states = distinct dumps), BFS to depth 2 (quick) / 3 (thorough); in every state 9 probe configurations x 2 oracles are run on the reused interpreter and compared with ExecProgram on a new one; distinct = distinct state dumps and probe observations",
 		Assumptions: []string{
 			"oracle 2 (no ResetVars) pins FS OFS ORS RS SUBSEP CONVFMT OFMT through Config.Vars on both sides and the probe then reads no global, array, RT, RSTART/RLENGTH, ARGV, ENVIRON or FIELDS: these are 'variables and arrays' that may carry over",
